@@ -151,7 +151,7 @@ def run(ctx):
     for f in glob.glob('/sys/devices/system/cpu/cpu[0-9]*/topology/physical_package_id'):
         packages.add(open(f).read().strip())
     rng = random.Random(ctx.seed * 4001 + 40)
-    cases = gen_cases(rng, 2500 if thorough else 56, ncpu, thorough)
+    cases = gen_cases(rng, 1200 if thorough else 56, ncpu, thorough)
 
     def one(c):
         d = os.path.join(ctx.work, 'case-' + c.cid); os.makedirs(d, exist_ok=True)
